@@ -389,7 +389,7 @@ func TestVerif_C08_Close(t *testing.T) {
 			{"RenominateCandidate", func() error { return a.RenominateCandidate(lc, s.epCandidate(0, soloEpSpec{Typ: CandidateTypeHost})) }, true},
 			{"StartDial", func() error { _, err := a.StartDial("uuuu", "pppppppppppppppppppppppp"); return err }, true},
 			{"Accept", func() error { _, err := a.Accept(context.Background(), "uuuu", "pppppppppppppppppppppppp"); return err }, true},
-			{"AwaitConnect", func() error { return a.AwaitConnect(context.Background()) }, false},
+			{"AwaitConnect", func() error { return a.AwaitConnect(context.Background()) }, true}, // (a closed agent is not connected, even if it once was)
 			{"Conn.Read", func() error { _, err := conn.Read(make([]byte, 100)); return err }, true},
 			{"Conn.Write", func() error { _, err := conn.Write([]byte("x")); return err }, true},
 			{"Conn.WriteToPair", func() error { _, err := conn.WriteToPair(1, []byte("x")); return err }, true},
@@ -407,9 +407,6 @@ func TestVerif_C08_Close(t *testing.T) {
 			err, _ := waitCh(ch, "post-close-"+c.name)
 			switch {
 			case c.wantErr && !errors.Is(err, taskloop.ErrClosed):
-				if c.name == "AwaitConnect" {
-					break
-				}
 				st.Fail(rt, "C08/final/"+c.name+"-not-closed-error", "%s after Close returned %v (want the closed error)\n%s", c.name, err, desc)
 			case !c.wantErr && err != nil && (strings.HasPrefix(c.name, "Get") || strings.HasPrefix(c.name, "Conn.Get")):
 				st.Fail(rt, "C08/final/"+c.name+"-not-empty", "%s after Close: %v\n%s", c.name, err, desc)
